@@ -28,6 +28,22 @@ type splitter struct {
 	explicitDefaults bool
 }
 
+// uncleanTarget spells a container path of a short-syntax mount the way people type them: the short syntax
+// cleans the path when it is read, so the entry is still the mount at that target.
+func (s *splitter) uncleanTarget(tgt string) string {
+	if !strings.HasPrefix(tgt, "/") || len(tgt) < 2 || strings.Contains(tgt, ":") || !s.coin("unclean-target", 1, 3) {
+		return tgt
+	}
+	s.used["short-volume-target-not-clean"]++
+	switch rapid.IntRange(0, 2).Draw(s.t, "unclean-how") {
+	case 0:
+		return tgt + "/"
+	case 1:
+		return "/." + tgt
+	}
+	return "/" + tgt
+}
+
 func (s *splitter) coin(label string, num, den int) bool {
 	return rapid.IntRange(0, den-1).Draw(s.t, label) < num
 }
@@ -812,7 +828,7 @@ func (s *splitter) respell(path string, v any) any {
 					if !ok || len(src) < 2 {
 						continue
 					}
-					str := src + ":" + tgt
+					str := src + ":" + s.uncleanTarget(tgt)
 					if ro, _ := m["read_only"].(bool); ro {
 						str += ":ro"
 					}
@@ -832,7 +848,7 @@ func (s *splitter) respell(path string, v any) any {
 					if !ok {
 						continue
 					}
-					str := src + ":" + tgt
+					str := src + ":" + s.uncleanTarget(tgt)
 					if ro, _ := m["read_only"].(bool); ro {
 						str += ":ro"
 					}
